@@ -58,7 +58,18 @@ def opaque_geometry_specs(v):
             return [(p, Bool(VALID(g.t)))]
         return inline(ex, "valid_geometry", args, p)
 
+    from pyvc.values import Str, StrSort
+    TYPE = z3.Function("geometry_type", GS, StrSort)
+    v.handlers["attr:Geometry.type"] = lambda ex, p, args, kw, node: [(p, Str(t=TYPE(args[0].t)))]
     v.handlers["contracts.geometry.bounds_of"] = bounds_of
     v.handlers["contracts.geometry.is_bounds"] = is_bounds
     v.handlers["contracts.geometry.valid_geometry"] = valid_geometry
     return v
+
+
+def some_shape(ex, p, args, kw, node):
+    """geometry_to_shapely at a call site where only the existence of the shapely object matters"""
+    from pyvc.values import Opq
+    from pyvc.shapely_model import SHAPE
+    ex.trace["assumed"].add("geometry_to_shapely returns some shapely geometry (its view is not used at this call site)")
+    return [(p, Opq("Shape", ex.fresh_sym(SHAPE, "shp", node), {}))]
